@@ -6,6 +6,7 @@ Imports model files only (no Mathlib, no theorem files) so that it links.
 import Rc.Drv.C10
 import Rc.Drv.C11
 import Rc.Drv.C15
+import Rc.Drv.C17
 import Rc.Drv.C18
 
 def dispatch (prop : String) : Option (List String → String) :=
@@ -13,6 +14,7 @@ def dispatch (prop : String) : Option (List String → String) :=
   | "C10" => some Rc.Drv.C10.handle
   | "C11" => some Rc.Drv.C11.handle
   | "C15" => some Rc.Drv.C15.handle
+  | "C17" => some Rc.Drv.C17.handle
   | "C18" => some Rc.Drv.C18.handle
   | _ => none
 
